@@ -180,6 +180,8 @@ def stack_shift_explains(cv):
     kv = cv.kv
     si = cv.first("step")
     mn = kv["mn"]
+    if mn not in ("Push", "Pop", "Call", "Ret"):
+        return False
     size = 2 if ("16" in kv["code"] or kv["code"].startswith("Pushw") or kv["code"].startswith("Popw")) else 8
     az = [c for c in cv.cmds if c.startswith("areaz") and c.endswith("Stack")]
     if not az:
